@@ -177,7 +177,20 @@ def install_symbolic_set(e, tvars):
     def it(en, args, fr, m):
         return Opaque('hash_set::Iter<Target>', 'T')
 
+    memo = {}
+
     def all_any(en, args, fr, m):
+        from ..engine import FnItem
+        f_ = en.force(args[1])
+        key = (m.group(1), f_.name) if isinstance(f_, FnItem) else None      # a plain function: the formula is the same on every path
+        if key in memo:
+            return memo[key]
+        r = all_any_(en, args, fr, m)
+        if key is not None:
+            memo[key] = r
+        return r
+
+    def all_any_(en, args, fr, m):
         parts = []
         for k, tv in tvars.items():
             r = as_bool(call_closure(en, fr, args[1], [ValRef(Adt('Target', k, ()))]))
@@ -338,9 +351,16 @@ def target_sets(r, tvars, all_kinds):
     return out
 
 
+_CONFIRMED = {}
+
+
 def report(chk, g, ty, label, inner, r, witness, why, all_kinds, tvars=None):
     """confirm on the real code (printed instance -> real parser -> real walker vs reference traversal)"""
     key = 'walker:' + label
+    if _CONFIRMED.get(key, 0) >= 3:
+        # the same step has already been confirmed on the compiled code three times: further failing paths of it are counted, not replayed
+        chk.obligations += 1
+        return
     out = ('unprintable', 'no instance')
     kinds = all_kinds
     for kinds in (target_sets(r, tvars, all_kinds) if tvars else [all_kinds]):
@@ -367,6 +387,7 @@ def report(chk, g, ty, label, inner, r, witness, why, all_kinds, tvars=None):
         return
     if out[0] == 'same':
         chk.broken('%s: %s — but the real walker agrees with the reference traversal on\n%s' % (label, why, out[1]))
+    _CONFIRMED[key] = _CONFIRMED.get(key, 0) + 1
     chk.violation(key, '%s: %s. File:%s  expected (pre-order) %r, walker returned %r' % (label, why, out[1].replace('\n', ' '), out[2], out[3]),
                   {'job': 'extract', 'source': out[1], 'targets': all_kinds, 'expected': out[2], 'observed': out[3]})
 
